@@ -32,7 +32,9 @@ LEANCHECKER = True
 RULE = ("a case = (catalogue, file name, format, prefix, meta) written by the real save_catalog and read back by "
         "load_table/table_to_source_list (sqlite3 for db; line count for ann/reg); non-trivial = at least 2 rows and "
         "at least one of: two or more source types, a NaN field, a -1 error marker, string lengths that differ "
-        "between rows, a first row that is atypical (shorter strings / ints in float fields / empty string); "
+        "between rows, a first row that is atypical (shorter strings / ints in float fields / empty string); file size "
+        "classes (tiny / ~64 KiB / either side of 1 MiB / > 1 MiB in quick, > 16 MiB in thorough) are a generator "
+        "dimension, reported in the histogram as size:*; "
         "distinct by (format, prefix, meta, digest of the catalogue)")
 ASSUMPTIONS = [
     "astropy.io.ascii / votable / fits and sqlite3 write and parse cells as documented; they are exercised, not "
@@ -225,8 +227,8 @@ def rand_source(rng, letter, idx, profile):
         elif n == 'uuid':
             v = rand_uuid(rng)
         elif n.startswith('err_'):
-            r = rng.random()
-            v = -1.0 if r < 0.3 else (-1 if r < 0.4 else abs(rand_float(rng, dict(profile, nan=0.03))))
+            r = rng.random() * 0.4 / max(profile.get('minus_one', 0.4), 1e-9)
+            v = -1.0 if r < 0.3 else (-1 if r < 0.4 else abs(rand_float(rng, dict(profile, nan=min(0.03, profile.get('nan', 0.03))))))
         elif n in f32cols:
             v = np.float32(rng.uniform(-1, 1) * 10 ** rng.uniform(-5, 2))
         else:
@@ -392,6 +394,7 @@ def real_roundtrip(ctx, case, root):
     obs['stale_siblings'] = stale
     present = [f for f in present_all if f not in stale]
     obs['files'] = present
+    obs['bytes'] = max([os.path.getsize(os.path.join(d, f)) for f in present] or [0])
     if ext in ('ann', 'reg'):
         return check_annotations(case, obs, by_letter, root_, ext_, present, fails)
     if present != want:
@@ -698,12 +701,14 @@ def run_cases(ctx, cases, do_shrink=True):
     for k, case in enumerate(cases):
         case['_dir'] = f"c{ctx.evaluations + k}"
         obs = real_roundtrip(ctx, case, root)
-        ml = model_lines(case, obs['filename']) if ctx.driver_ok else []
+        ml = model_lines(case, obs['filename']) if (ctx.driver_ok and not case.get('no_model')) else []
         work.append((case, obs, len(lines), len(ml)))
         lines += ml
     outs = ctx.driver.batch(lines) if (ctx.driver_ok and lines) else []
     for case, obs, start, n in work:
         for what, detail, extra in obs['fails']:
+            if what == 'numeric' and obs.get('bytes') is not None:
+                extra = dict(extra, file_size=size_class(obs['bytes']))
             dupkey = json.dumps(signature(case, what, extra), sort_keys=True)
             seen = ctx.extra.setdefault('failure_kinds_seen', {})
             if dupkey in seen:                      # same kind of failure already has a (minimised) witness
@@ -713,7 +718,7 @@ def run_cases(ctx, cases, do_shrink=True):
             seen[dupkey] = 1
             small = case
             if do_shrink and len(case['catalog']) > 3:
-                small = shrink(ctx, case, what, root)
+                small = shrink(ctx, case, what, root, budget=40 if len(case['catalog']) <= 400 else 12)
                 o2 = real_roundtrip(ctx, dict(small, _dir=case['_dir'] + 'm'), root)
                 f2 = [f for f in o2['fails'] if f[0] == what]
                 if f2:
@@ -722,12 +727,16 @@ def run_cases(ctx, cases, do_shrink=True):
                     small = case
             rec = {k: v for k, v in small.items() if k != '_dir'}
             ctx.fail('spec', rec, f"{case['ext']}: {detail}", signature(case, what, extra))
-        if outs:
+        if outs and n:
             for what, detail in compare_model(ctx, case, obs, outs[start:start + n]):
                 rec = {k: v for k, v in case.items() if k != '_dir'} if len(case['catalog']) <= 12 else summarise(case)
                 ctx.fail('corr', rec, f"{case['ext']}: {detail}", dict(site='model', what=what, ext=case['ext']))
         if case.get('history'):
             ctx.count('history-step')
+        if case['ext'] not in ('ann', 'reg') and obs.get('bytes') is not None:
+            ctx.count('size:' + size_class(obs['bytes']))
+            if case['ext'] in ('csv', 'tab'):
+                ctx.count(f"size:{case['ext']}:" + size_class(obs['bytes']))
         if obs.get('stale_siblings'):
             ctx.count('observation:stale-sibling-file-of-earlier-write')
             if not ctx.extra.get('stale_sibling_example'):
@@ -875,6 +884,53 @@ def corpus_histories():
     return out
 
 
+SIZE_EDGES = [(4 << 10, '<4KiB'), (60 << 10, '4-60KiB'), (72 << 10, '~64KiB'), (900 << 10, '72-900KiB'),
+              (1 << 20, '0.9-1MiB'), (1200 << 10, '1-1.17MiB'), (16 << 20, '1.17-16MiB')]
+
+
+def size_class(nbytes):
+    """file SIZE classes: tiny / around the 64 KiB I/O buffer / either side of 1 MiB / > 1 MiB / > 16 MiB"""
+    for edge, name in SIZE_EDGES:
+        if nbytes < edge:
+            return name
+    return '>16MiB'
+
+
+DENSE = dict(atypical=False, nan=0.01, pyint=False, minus_one=0.05, empty_str=0)
+
+
+def bytes_per_row(ctx, ext):
+    """measured on the real writer: bytes of a component file per dense row"""
+    from AegeanTools import catalogs as C
+    cache = ctx.extra.setdefault('bytes_per_row', {})
+    if ext not in cache:
+        rng = __import__('random').Random(12345)
+        cat = gen_catalogue(rng, 64, 'C', DENSE)
+        d = os.path.join(ctx.tmpdir(), 'bpr_' + ext)
+        os.makedirs(d, exist_ok=True)
+        with warnings.catch_warnings():
+            warnings.simplefilter('ignore')
+            with np.errstate(all='ignore'):
+                C.save_catalog(os.path.join(d, 'm.' + ext), build(cat))
+        cache[ext] = max(1, os.path.getsize(os.path.join(d, 'm_comp.' + ext)) // 64)
+    return cache[ext]
+
+
+def sized_cases(ctx, targets, model_limit=4000):
+    """targets: list of (ext, bytes): a dense component catalogue (full-precision doubles, extreme magnitudes,
+    few NaN / -1) long enough for the written file to reach that size"""
+    cases = []
+    for ext, nbytes in targets:
+        rows = max(1, int(nbytes / bytes_per_row(ctx, ext)) + 1)
+        cat = gen_catalogue(ctx.rng, rows, 'C', DENSE)
+        c = make_case(ctx.rng, cat, ext, stem='sized', prefix=None, meta_i=0)
+        c['size_target'] = nbytes
+        if rows > model_limit:
+            c['no_model'] = True          # the partition / typing decisions do not depend on length: Spec only
+        cases.append(c)
+    return cases
+
+
 def check_hypotheses(ctx):
     """the hypotheses the theorems name, checked on the real classes"""
     cl = classes()
@@ -915,9 +971,18 @@ def run(ctx):
     if ctx.quick:
         run_cases(ctx, random_cases(ctx, 26, 300, ALL_EXTS))
         run_cases(ctx, history_cases(ctx, 5, 40, ALL_EXTS))
+        MiB = 1 << 20
+        run_cases(ctx, sized_cases(ctx, [('csv', 66 << 10), ('csv', int(0.95 * MiB)), ('csv', int(1.3 * MiB)),
+                                         ('tab', int(0.95 * MiB)), ('tab', int(1.3 * MiB))]))
     else:
         run_cases(ctx, random_cases(ctx, 240, 600, ALL_EXTS))
         run_cases(ctx, history_cases(ctx, 30, 200, ALL_EXTS + ['sqlite']))
+        MiB = 1 << 20
+        tg = [(e, sz) for e in ('csv', 'tab', 'tex') for sz in (2 << 10, 66 << 10, int(0.95 * MiB), int(1.05 * MiB),
+                                                                 int(1.3 * MiB), int(2.5 * MiB))]
+        tg += [(e, int(1.3 * MiB)) for e in ('vot', 'xml', 'fits', 'db')]
+        tg += [('csv', 17 * MiB), ('tab', 17 * MiB)]
+        run_cases(ctx, sized_cases(ctx, tg))
         # a few big catalogues, every format
         big = []
         for nrows, mix in ((1000, 'CCIS'), (2000, 'C'), (3000, 'CCIS')):
